@@ -10,9 +10,10 @@ class FileD:
     """stem.god:  [class <cls> [(<par>)]]  [uses ...]  fields, methods
        members: list of (name, kind, override) with kind 'p' proc, 'f' func, 'v' field
        body: list of lines put inside the first method (C14: references to other entities)"""
-    def __init__(self, stem, cls=None, par=None, uses=(), members=(), body=()):
+    def __init__(self, stem, cls=None, par=None, uses=(), members=(), body=(), extra=()):
         self.stem, self.cls, self.par = stem, cls, par
         self.uses, self.members, self.body = list(uses), list(members), list(body)
+        self.extra = list(extra)      # further top-level declaration lines (not members of the model: e.g. a field of an unknown type)
 
     def render(self):
         """-> (text, cls_pos, par_pos, [(name, kind, line, col)], [probe (line, col)])"""
@@ -36,6 +37,8 @@ class FileD:
         for (name, kind, ovr) in fields:
             mpos.append((name, kind, len(lines), 0))
             lines.append("%s : int4" % name)
+        for x in self.extra:
+            lines.append(x)
         lines.append("")
         first = True
         for (name, kind, ovr) in meths:
